@@ -24,6 +24,22 @@ CHECKS = {
    note="Stub kernel/proposal/model. One known finding (extra mcmc_acceptance entry from the final enlargement) is listed in known_findings.json."),
 }
 
+
+CHECKS.update({
+ "C08": dict(level="exploration", ref="DESIGN.md section 4 C08", technique="deterministic simulation: history check against an executable reference model plus twin runs under one seed (checkpointing, n_final_samples, simulator-replaced resampling draw, crash/resume)",
+   text="Every recorded per-iteration ratio and variance is recomputed by the simulator's own model from the stored pre-resampling population and the temperatures actually used; returned evidence and error must be the sum / root-sum. Twin runs that differ only in checkpointing, n_final_samples or the rng.choice answer of one step (the simulator owns the generator) must give bit-identical ratios; crash/resume twins included.",
+   note="Stub kernel/proposal/model. Bit equality is demanded between twin runs of one seed; value equality vs the float64 model uses dtype-scaled tolerances."),
+ "C10": dict(level="exploration", ref="DESIGN.md section 4 C10", technique="deterministic simulation: recomputation oracle over every population of whole runs (all samplers), proposal-seam pairing check, crash/resume included",
+   text="With deterministic model and proposal owned by the simulator, coherence of cached log-densities is decided by recomputation on every population a run returns, records or checkpoints (importance, minipcn MCMC, emcee MCMC, minipcn SMC, emcee SMC; all namespaces/dtypes; before and after crash/resume); the initial population is matched row by row against what the proposal actually drew, with proposals wider than the prior so the draw-reject-concatenate-trim loop runs.",
+   note="Stub kernels/proposal/model; blackjax not run. float32 tolerance for log_q of drawn rows is sensitivity-aware (one float32 ulp of x)."),
+ "C17": dict(level="exploration", ref="DESIGN.md section 4 C17", technique="deterministic simulation: temporal invariant evaluated at call time inside the user's likelihood (model seam), all samplers, pool-mapped calls, crash/resume",
+   text="The instrumented likelihood asserts at every call of every simulated process that the sample set carries the log-prior of exactly those points and that each point was passed to the prior earlier in the trace; at process end the reported evaluation counter must equal the sum of batch sizes. Runs cover every sampler, preconditioning, namespace, FakePool-mapped calls and resumed runs.",
+   note="Stub kernels/proposal; blackjax call sites not run."),
+ "C20": dict(level="exploration", ref="DESIGN.md section 4 C20", technique="deterministic simulation: twin runs (same process, fresh interpreter under another PYTHONHASHSEED) with digest equality, recording generator at every supply route, entropy seam for unseeded generators",
+   text="Identically seeded runs must be bit-identical in one process and in a fresh interpreter (real zuko and flowjax construction+training, stub proposal; importance, minipcn MCMC, SMC); for each route of supplying a generator the supplied SimGenerator must account for every draw in the trace; changing only its seed must change the result.",
+   note="CPU, single-threaded numerics. emcee_smc offers no way to supply a generator and is not judged. One known finding (Emcee.sample ignores its rng argument)."),
+})
+
 NOT_APPLICABLE = [
   {"property_id": "C02", "reason": "pure function of one array triple (weights/evidence/ESS formulas): no schedule, storage, randomness, interruption or second party for a simulator to control; see DESIGN.md section 5"},
   {"property_id": "C04", "reason": "pure mathematical map per transform configuration, quantified over inputs only: nothing a crash, seed or operation order can decide; see DESIGN.md section 5"},
